@@ -2,8 +2,9 @@
   MudModel.Models — diabatic potentials `V(x)` and their hand-written gradients `dV(x)` of the
   one-dimensional built-in models (`mudslide.models.scattering_models`), entry by entry, with the
   constructor parameters as arguments.  Entries are given as functions of the position so that the
-  theorems can talk about derivatives.  (Shin–Metiu, the 5-D vibronic model and Subotnik2D are tied to
-  the code by the finite-difference oracle only.)
+  theorems can talk about derivatives.  The two multi-dimensional diabatic models (Subotnik2D, the 5-D linear vibronic
+  model) follow at the end, coordinate by coordinate.  (Shin–Metiu, an `AdiabaticModel_` on a grid, is tied to the code by the
+  finite-difference oracle only.)
 -/
 import MudModel.Num
 
@@ -74,5 +75,35 @@ def modelzDiag (N : Nat) (eps : α) (m : Nat) (x : α) : α :=
 def modelzDiagD (N : Nat) (m : Nat) : α := if m ≤ N / 2 then 1 else -1
 /-- the pinned `dV` of model Z returns the potential itself -/
 def modelzDiagDPinned (N : Nat) (eps : α) (m : Nat) (x : α) : α := modelzDiag N eps m x
+
+/-! ### Subotnik2D (two states, coordinates `x, y`); `hp` is the literal `np.pi * 0.5` passed as a parameter -/
+
+/-- `z = b (x - 1) + w cos(g y + π/2)` -/
+def sub2dZ (b w g hp x y : α) : α := b * (x - 1) + w * cos (g * y + hp)
+def sub2dV11 (f b x : α) : α := -f * tanh (b * x)
+def sub2dV22 (a b w g hp x y : α) : α := a * tanh (sub2dZ b w g hp x y) + frac 3 4 * a
+def sub2dV12 (c d x : α) : α := c * exp (-d * x * x)
+/-- `dV[0]` entries (∂/∂x) -/
+def sub2dD11x (f b x : α) : α := -f * b / (cosh (b * x) * cosh (b * x))
+def sub2dD22x (a b w g hp x y : α) : α := a * b / (cosh (sub2dZ b w g hp x y) * cosh (sub2dZ b w g hp x y))
+def sub2dD12x (c d x : α) : α := -(lit 2) * d * x * c * exp (-d * x * x)
+/-- `dV[1]` entries (∂/∂y): only `V22` depends on `y` -/
+def sub2dD22y (a b w g hp x y : α) : α :=
+  a * (-w * g * sin (g * y + hp)) / (cosh (sub2dZ b w g hp x y) * cosh (sub2dZ b w g hp x y))
+
+/-! ### the 5-D linear vibronic model: four tuning modes `X_0..X_3` and the torsion `θ = X_4` -/
+
+/-- `w0 + Σ k_i X_i + Σ An_i sin²((i+1)θ)` plus the vertical energy `E`: the diagonal entry with couplings `k` -/
+def vibDiag (E : α) (om k An : Fin 4 → α) (X : Fin 4 → α) (theta : α) : α :=
+  E + vsum (fun i => om i / lit 2 * (X i * X i)) + vsum (fun i => k i * X i)
+    + vsum (fun i : Fin 4 => An i * (sin (((i.val + 1 : Nat) : α) * theta) * sin (((i.val + 1 : Nat) : α) * theta)))
+/-- `dV[i]`, i < 4: `om_i X_i + k_i` -/
+def vibDiagDmode (om k : Fin 4 → α) (X : Fin 4 → α) (i : Fin 4) : α := om i * X i + k i
+/-- `dV[4]`: `Σ An_i 2 (i+1) sin((i+1)θ) cos((i+1)θ)` -/
+def vibDiagDtheta (An : Fin 4 → α) (theta : α) : α :=
+  vsum (fun i : Fin 4 => An i * lit 2 * ((i.val + 1 : Nat) : α) * (sin (((i.val + 1 : Nat) : α) * theta) * cos (((i.val + 1 : Nat) : α) * theta)))
+/-- the coupling `λ r0 sin θ` and its torsional derivative -/
+def vibV12 (lamb r0 theta : α) : α := lamb * r0 * sin theta
+def vibD12theta (lamb r0 theta : α) : α := lamb * r0 * cos theta
 
 end Mud.Models
